@@ -60,12 +60,12 @@ _AEH_WEAK = [
     "((flat(old(self)._level_limit, seq_at(parent_modules, len(parent_modules) - 1)), flat(old(self)._level_limit, old(child))) in self._graph.edges) and "
     "((flat(old(self)._level_limit, seq_at(parent_modules, len(parent_modules) - 1)), flat(old(self)._level_limit, old(child))) in self._graph.inh))",
 ]
-_AEH_LOWER = [
-    # fix 20: consecutive parents are always linked (both are nodes by then), whatever the graph contained before
-    "forall(Int, lambda j: implies(0 <= j and j + 1 < len(parent_modules) and flat(old(self)._level_limit, seq_at(parent_modules, j)) != flat(old(self)._level_limit, seq_at(parent_modules, j + 1)), "
-    "((flat(old(self)._level_limit, seq_at(parent_modules, j)), flat(old(self)._level_limit, seq_at(parent_modules, j + 1))) in self._graph.edges) and "
-    "((flat(old(self)._level_limit, seq_at(parent_modules, j)), flat(old(self)._level_limit, seq_at(parent_modules, j + 1))) in self._graph.inh)))",
-]
+# fix 20 (F04a): consecutive parents are always linked (both are nodes by then), whatever the graph contained before. A defined predicate: the callers keep it
+# opaque (they cannot use it -- the order of the parent list is not known to them -- and the quantifier over positions slowed their proofs down 10x)
+REG.define("aeh_lower", dict(lim="Opt[Int]", ps="Seq[Node]", g="DiGraph"),
+           "forall(Int, lambda j: implies(0 <= j and j + 1 < len(ps) and flat(lim, seq_at(ps, j)) != flat(lim, seq_at(ps, j + 1)), "
+           "((flat(lim, seq_at(ps, j)), flat(lim, seq_at(ps, j + 1))) in g.edges) and ((flat(lim, seq_at(ps, j)), flat(lim, seq_at(ps, j + 1))) in g.inh)))")
+_AEH_LOWER = ["aeh_lower(old(self)._level_limit, parent_modules, self._graph)"]
 _AEH_NODES_ONLY = [
     "self._level_limit == old(self)._level_limit", "self._all_modules == old(self)._all_modules", "self._imports == old(self)._imports",
     "forall(Node, lambda x: implies(x in self._graph.nodes, (x in old(self)._graph.nodes) or hnode(old(self)._level_limit, parent_modules, idx, x)))",
@@ -117,7 +117,7 @@ _AAM = [
     "forall(Node, Node, lambda a, b: implies(((a, b) in self._graph.inh) and not ((a, b) in old(self)._graph.inh), (a, b) in self._graph.edges))",
     "forall(Node, Node, lambda a, b: implies(((a, b) in self._graph.edges) and not ((a, b) in old(self)._graph.edges), (a, b) in self._graph.inh))",
 ]
-REG.add(Contract(f"{NG}._add_all_modules_as_nodes", module=M_NX, kind="method", params=dict(self=NG), returns="None", modifies=["self"],
+REG.add(Contract(f"{NG}._add_all_modules_as_nodes", module=M_NX, kind="method", params=dict(self=NG), returns="None", modifies=["self"], opaque=["aeh_lower"],
                  ensures=[e.replace("%M%", "old(self)._all_modules") for e in _AAM],
                  loops={0: dict(sig="for module in self._all_modules", invariant=[e.replace("%M%", "seen") for e in _AAM])},
                  properties=["C02", "C04", "C09", "C13"]))
@@ -176,7 +176,7 @@ _INNER = _FRAME + _UPPER + [
     "self._graph.nodes == pre(self)._graph.nodes",
     "forall(Node, Node, lambda a, b: implies((a, b) in pre(self)._graph.edges, (a, b) in self._graph.edges))",
 ]
-REG.add(Contract(f"{NG}._initialise", module=M_NX, kind="method", params=dict(self=NG), returns="None", modifies=["self"],
+REG.add(Contract(f"{NG}._initialise", module=M_NX, kind="method", params=dict(self=NG), returns="None", modifies=["self"], opaque=["aeh_lower"],
                  ensures=_FRAME + _UPPER + [e.replace("%I%", _IMPS) for e in _EXACT],
                  locals=dict(all_importee_modules="Seq[Node]"),
                  # proof hints (obligations themselves): the upper bounds hold again right after the import edge was tried
